@@ -49,6 +49,33 @@ func typeName(t types.Type) string {
 
 func c48(c *Ctx) {
 	c.Ob("decision", "R7", "IsAuthorized: PermissionDenied iff (ALLOW and no match) or (DENY and match) for the visited engine; nil only after the loop; Internal on missing request data; findMatchingPolicy = exists policy that matches; only ALLOW/DENY engines are built", 9, func() {
+		// every configured engine is in the chain (an ALLOW engine without policies denies everything; dropping it would allow everything):
+		// each policy of the input either fails construction or has its engine appended, and the walk is never left early
+		nce := c.fn(xrbac, "NewChainEngine")
+		var capp *ssa.Call
+		for _, in := range instrsWhere(nce, func(in ssa.Instruction) bool {
+			call, ok := in.(*ssa.Call)
+			return ok && BuiltinCall("append")(&call.Call)
+		}) {
+			capp = in.(*ssa.Call)
+		}
+		neCall := one(c, "newEngine call in NewChainEngine", callsIn(nce, Callee(xrbac, "newEngine")))
+		if c.Expect(capp != nil, neCall, nce, "chain:engine-appended", "built engines are not collected") {
+			el := appendedElems(capp)
+			c.Expect(len(el) == 1 && ExtractOf(func(v ssa.Value) bool { return v == neCall.Value() }, 0)(el[0]), capp, nce, "chain:appends-the-built-engine", "the collected engine is not the one just built")
+			c.MustPass("chain:every-built-engine-is-kept", pathQuery{Fn: nce, Starts: []ssa.Instruction{neCall}, Barrier: func(in ssa.Instruction) bool { return in == ssa.Instruction(capp) },
+				Target: func(in ssa.Instruction) bool { return in == neCall.(ssa.Instruction) || isReturn(in) },
+				EdgeBlock: func(from, to *ssa.BasicBlock) bool {
+					_, ok := hasFact(edgeFacts(from, to), NotNil(ExtractOf(func(v ssa.Value) bool { return v == neCall.Value() }, 1)))
+					return ok
+				}}, neCall)
+			c.Expect(c.NoEarlyExit(nce, ParamV("policies"), "chain:every-policy-visited") == 1, neCall, nce, "chain:policy-walk", "no walk over the configured policies")
+			for _, r := range returnsOf(nce) {
+				if r.Block() != nce.Recover && ConstNil(r.Results[1]) {
+					c.Expect(DataDep(func(v ssa.Value) bool { return v == ssa.Value(capp) })(r.Results[0]) || DataDep(func(v ssa.Value) bool { p, ok := v.(*ssa.Phi); return ok && DataDep(func(w ssa.Value) bool { return w == ssa.Value(capp) })(p) })(r.Results[0]), r, nce, "chain:returns-the-collected-engines", "the chain returned is not built from the collected engines")
+				}
+			}
+		}
 		f := c.fn(xrbac, "ChainEngine.IsAuthorized")
 		fAct := c.field(xrbac, "engine", "action")
 		allow, deny := ConstOfObj(c.konst(rbacpb, "RBAC_ALLOW")), ConstOfObj(c.konst(rbacpb, "RBAC_DENY"))
